@@ -75,8 +75,10 @@ class Facts:
                 defs.add(self.toks[min(cand) + 1].start)
             elif isinstance(n, (ast.MatchAs, ast.MatchStar, ast.MatchMapping, ast.Match)):
                 raise Skip('match statement')
-            elif hasattr(ast, 'TypeAlias') and isinstance(n, (ast.TypeAlias, ast.TypeVar, ast.ParamSpec, ast.TypeVarTuple)):
-                raise Skip('type parameters')
+            elif hasattr(ast, 'TypeAlias') and isinstance(n, ast.TypeAlias):
+                raise Skip('type alias statement')
+            # PEP 695 type parameters (TypeVar / ParamSpec / TypeVarTuple) carry their name as a plain string: CPython
+            # lists no binding occurrence for them, and the helpers of generic functions/classes are compared as usual
         return defs
 
 
@@ -354,7 +356,7 @@ class C14(Prop):
     id = 'C14'
     rule = ('Generated: statement-aligned windows of real code (repo + stdlib 3.12), token-level mutations, hand-written programs rich '
             'in targets/parameters/imports/lambdas; domain: the running CPython (%s) compiles the program and parso (grammar %s) parses '
-            'it without error nodes; match statements and type parameters skipped. Oracle: facts from ast.parse with byte->character '
+            'it without error nodes; match statements and `type` alias statements skipped (PEP 695 generic functions/classes are included). Oracle: facts from ast.parse with byte->character '
             'columns and tokenize for non-Name binding sites: definition set == name leaves with is_definition(); get_definition() is an '
             'ancestor; per scope iter_funcdefs/iter_classdefs/iter_imports; per function/lambda get_params (name, star kind, default, '
             'annotation), return annotation presence/text, is_generator, return/raise statement lines; per import paths, defined names, '
